@@ -50,14 +50,14 @@ CONFIG = dict(
          "WithName/WithInnerGroupName) and name function (none/ToLower/ToUpper/ToLowerCamelCase) + Build (and re-Build after a late Register) + 25-75 "
          "calls: HasMethod/GetArgType, CallWithSerialize (json/proto/nil serializer), Collection.Call with typed/nil/wrong arguments, "
          "APIDispatcher.Dispatch over several collections (request and notify); routes: 60% aimed at a real method, else case variants, 0-4 segments, "
-         "empty parts, unknown group/method, random bytes; payloads valid/undecodable/empty/truncated; contexts nil/matching/other type; with and "
+         "empty parts, unknown group/method, random bytes; payloads valid/undecodable/empty/truncated/valid JSON value + trailing junk (extra brace, trailing comma, second document, other bytes; trailing white space still decodes); contexts nil/matching/other type; with and "
          "without completion function; handler scripts ok/err/twice/none/panic/runtime-panic/complete-then-panic/late/unserialisable value. "
          "A case is non-trivial when a handler ran, a table was non-empty or a method was accepted; distinct = distinct (op, observation) pairs",
     trusted_base=[
         "Lean 4.33.0 kernel; axioms of every property theorem audited on each run (allowed: propext, Classical.choice, Quot.sound)",
         "hand-written model lean/Cell2v/Model/ApiMap.lean tied to the Go code by the differential run of this check (harness/c13 + modeld_c13)",
         "reflect facts (Kind, Implements(IContext), AssignableTo(HandlerCBFunc), method sets, PkgPath) are taken from the harness dump of the real reflect.Method values",
-        "serializers (encoding/json, protobuf) abstracted as a function (declared type, payload) -> value | error, evaluated by the harness independently of the code under test and passed as hints",
+        "serializers abstracted as a function (declared type, payload) -> value | error given by REFERENCE decoders the harness calls directly, never through utils/serialize (which is code under test): json = the whole byte string is one JSON value (encoding/json.Valid) that encoding/json.Unmarshal stores into the type; proto = proto.Unmarshal into a proto.Message; the result is passed as hints",
         "sync.RWMutex gives mutual exclusion, so a body that looks up and inserts inside one write-locked section is one atomic step (the section structure itself is "
         "extracted from api_registry.go by harness/c13/extract into Gen/C13Registry.lean and checked by theorem registry_add_collection_atomic)",
         "harness canonicalisation (map iteration sorted, error texts dropped, completions tagged by who issued them, panics caught by recover and mapped to 'panic')",
